@@ -14,6 +14,9 @@ def c18_casesv(lines):
     rows = []
     for l in lines:
         f = l.split()
+        if f[0] == "D":   # directory-like destination spelling: op mkind otherdev srcmissing nonempty ok srcp srco dstgiven third dstinside selfparent srcsym
+            rows.append("dirlike_ok_for %s %s" % (strategy, " ".join(f[1:14])))
+            continue
         rows.append("verdict_ok_for %s (check_case %s)" % (strategy, " ".join(f[1:11])))
     return ("From Coq Require Import List NArith.\nImport ListNotations.\nFrom Glb Require Import Check.C18.\n"
             "Open Scope N_scope.\nDefinition verdicts : list bool := [\n  " + ";\n  ".join(rows) +
@@ -34,6 +37,7 @@ CFG = dict(
     coq_deps=["Model/FileOps", "Lib/FsScenarios", "Proofs/FileOpsP", "Properties/C18", "Check/C18"],
     ocaml="c18",
     casesv=c18_casesv,
+    case_tags=("E", "D"),
     sig=c18_sig,
     rule=("{CopyFile, MoveFile} x 10 destination kinds (missing, other file, same path, './' '//' 'd/../' spellings, symlink to "
           "source, hard link, directory, parent missing, parent is a file, symlink to another file) x {same device, other "
@@ -51,6 +55,12 @@ CFG = dict(
           "symlink destinations; sources whose stat size is not what reading yields - "
           "a stable /proc file (read only, CopyFile only) and a FIFO in the sandbox fed by a writer goroutine (CopyFile; MoveFile across "
           "devices) - judged by the specification on the observed outcome only ('S' lines: outside the file-system model); "
+          "directory-like destination SPELLINGS ('D' lines): 'dir/', 'dir//', 'dir/.' and the same three through a symbolic link to the "
+          "directory, where dir is the source's own parent (or the directory holding the symbolic link used as source path, its data "
+          "file elsewhere / on the other device), another existing directory (with and without a file of the source's base name in it) or "
+          "a missing directory, both functions, sizes 0..70000 (thorough 1 MiB) - 'the destination' is the path given if it resolves to a "
+          "regular file, else <dir>/<base name of the source>; the model outcome is the 'destination is a directory' / 'parent missing' "
+          "failure, a success that satisfies the property under that reading is accepted too; "
           "and real faults without hooks: "
           "destination a symlink (in the scratch directory) to /dev/full (create follows it and succeeds, every write fails with ENOSPC), and - unless running as "
           "root - an unwritable destination directory and an unreadable source; real files, one case = one call on a freshly "
@@ -70,6 +80,11 @@ CFG = dict(
                  "code at HEAD) and temporary file + rename over the destination name (atomic replace); a run must agree with one "
                  "of them on every case (the first case on which they differ decides; driver stat 'strategy'); an outcome that "
                  "satisfies the property but matches neither model is reported without a failing input",
+                 "the model resolves paths to slots and has no notion of a spelling: a destination text ending in a path separator or "
+                 "'/.' is the model's 'destination is a directory' (missing directory: 'parent missing') failure; an implementation that "
+                 "reads 'dir/' like cp(1) (copy into dir under the source's base name) is outside the model and judged by the property "
+                 "statement alone (Check/C18.v spec_dirlike: nil => source intact (CopyFile) and <dir>/<base> holds the original bytes; "
+                 "<dir> = the source's own directory makes the two aliases; error => source intact)",
                  "PARTIAL: outside the model, hence not proved: files changed by other processes during the call, crash consistency",
                  "faults: every call site (rename, open, src.Stat, os.Stat(dest), create, io.Copy incl. partial write, remove) may "
                  "fail, chosen by a universally quantified oracle - except a spurious failure of os.Stat(dest) while dest really is "
